@@ -3,7 +3,8 @@
 // Unit `evalneg`: the negatable predicates of ExpressionEvaluator::evaluate -- IS [NOT] NULL,
 // [NOT] BETWEEN, [NOT] IN (list) -- and string_like (C05: predicates follow three-valued logic).
 // Each arm of the big `match` is checked as a function of its own (R11).  The three subquery arms
-// (not implemented by the engine) must be ordinary errors of the statement, not panics (C16).
+// (not implemented by the engine) and the catch-all arm (CASE, aggregates outside an aggregation, `*`)
+// must be ordinary errors of the statement, not panics (C16).
 //   IS [NOT] NULL is two-valued and negation flips it; BETWEEN / IN / LIKE: a NULL operand (for IN
 //   also a miss against a list containing NULL) gives NULL, otherwise negation flips the verdict.
 //@trusted [env] self.evaluate(sub-expression) is abstract (val(e)); DataType comparison (>=, <=: C19 unit types) and HashSet<DataType> (insert / contains by the DataType equality of C19) are abstract; Blob::like is abstract
@@ -146,6 +147,12 @@ impl ExpressionEvaluator {
 //@ sub /"([^"]*)"\.to_string\(\)/ => msg("\1")
 //@ ensures
 //@   [C16,C05:subquery.in_is_an_error_not_a_panic] r is Err,
+//@end
+//@fn crates/axmos-db/src/runtime/eval.rs | impl<'a> ExpressionEvaluator<'a> | evaluate
+//@ arm /\n            _ => \{/ => fn fallthrough_arm(&self) -> EvaluationResult<Vec<DataType>>
+//@ sub /"([^"]*)"\.to_string\(\)/ => msg("\1")
+//@ ensures
+//@   [C16,C05:evaluate.unimplemented_expression_kinds_are_errors_not_panics] r is Err,
 //@end
 }
 
